@@ -1,5 +1,10 @@
 package c02
 
+import "fmt"
+
+// preallocReopenTxs: commits (each followed by Close/Open) of the directed prealloc-reopen scripts
+const preallocReopenTxs = 26
+
 type dscript struct {
 	cfg   Cfg
 	steps []*Step
@@ -108,5 +113,25 @@ func directed() []dscript {
 		{Kind: "pre", C: 1, Ents: []Ent{{Key: []byte("key-4"), Val: []byte("c")}}, Ts: 1019, Cancel: "ctx"},
 		put(2, "f22-0", "after-ctx", 1020), {Kind: "reopen"},
 	}})
+	// D14..: preallocated files with small chunks, a clean Close/Open after EVERY commit for more than two
+	// chunks' worth of commit-log entries: the restart must find the last committed transaction at every fill
+	// level of the preallocated commit log, including when the last entry slot of a chunk is in use
+	// (OpenWith's search for the last non-zero entry)
+	for _, v := range []struct {
+		fs          int
+		synced, emb bool
+	}{{512, false, false}, {512, true, true}, {256, false, true}, {256, true, false}} {
+		c = base(v.synced, v.emb, false)
+		c.Prealloc, c.FileSize, c.MaxEntries = true, v.fs, 8
+		var st []*Step
+		for i := 0; i < preallocReopenTxs; i++ {
+			st = append(st, put(i%3, fmt.Sprintf("p%d", i), fmt.Sprintf("v%d", i), int64(1001+i)))
+			if v.synced {
+				st = append(st, &Step{Kind: "sync"})
+			}
+			st = append(st, &Step{Kind: "reopen"})
+		}
+		l = append(l, dscript{c, st})
+	}
 	return l
 }
